@@ -213,6 +213,8 @@ func (cel *CryptoAgileLog) Unmarshal(r io.Reader) error {
 	if err := littleRead(r, "Header", &cel.Header); err != nil {
 		return err
 	}
+	// The header above replaces the destination's; so do the events.
+	cel.Events = nil
 	for {
 		evt := &TCGPCREvent2{}
 		if err := littleRead(r, "Event", evt); err != nil {
